@@ -947,4 +947,46 @@ def maximal_programs():
     L.append(Line(["\treturn (0);"], "stmt", 1, 1, stmt="return"))
     L.append(Line(["}"], "func_close", 0, 1))
     out.append(Prog(name, L, dict(nfuncs=2, maximal="control-flow corner shapes")))
+    # 5. declarations that LOOK like functions but are not (function-pointer global with initialiser, array globals with
+    #    brace initialisers, prototypes, function-pointer parameter and local) next to exactly FOUR functions: one below
+    #    the function limit, so that any miscount shows when one more function is appended (C19) or present (C01)
+    name = "mx5.c"
+    gh, gt, gn = Slot("pid:g_", "g_hook"), Slot("pid:g_", "g_tab"), Slot("pid:g_", "g_names")
+    fa, ft, fp_, fm = Slot("fname", "apply"), Slot("fname", "third"), Slot("fname", "pick"), "main"
+    pf, pa, pb, lo, se, ta = [Slot("id", x) for x in ("fn", "aa", "bb", "loc", "sel", "arg")]
+    L = header_lines(name) + [Line([""], "blank"), Line(["#include <stdlib.h>"], "include"), Line([""], "blank")]
+    L.append(Line(["static int\t(*", gh, ")(int) = NULL;"], "global"))
+    L.append(Line(["static int\t", gt, "[3] = {1, 2, 3};"], "global"))
+    L.append(Line(["static char\t*", gn, '[] = {"a", "b"};'], "global"))
+    L.append(Line([""], "blank"))
+    L.append(Line(["static int\t", fa, "(int (*", pf, ")(int, int), int ", pa, ", int ", pb, ");"], "proto"))
+    L.append(Line(["static int\t", ft, "(int ", ta, ");"], "proto"))
+    L.append(Line([""], "blank"))
+    L.append(Line(["static int\t", fa, "(int (*", pf, ")(int, int), int ", pa, ", int ", pb, ")"], "func_sig", 0, 0))
+    L.append(Line(["{"], "func_open", 0, 0))
+    L.append(Line(["\tint\t(*", lo, ")(int, int);"], "decl", 1, 0, var=lo))
+    L.append(Line([""], "blank_decl", 0, 0))
+    L.append(Line(["\t", lo, " = ", pf, ";"], "stmt", 1, 0, stmt="assign"))
+    L.append(Line(["\treturn (", lo, "(", pa, ", ", pb, "));"], "stmt", 1, 0, stmt="return"))
+    L.append(Line(["}"], "func_close", 0, 0))
+    L.append(Line([""], "blank"))
+    L.append(Line(["int\t", fp_, "(int ", se, ")"], "func_sig", 0, 1))
+    L.append(Line(["{"], "func_open", 0, 1))
+    L.append(Line(["\tif (", se, ")"], "ctrl", 1, 1, kw="if"))
+    L.append(Line(["\t\treturn (", gh, "(", se, "));"], "stmt", 2, 1, stmt="return"))
+    L.append(Line(["\treturn (0);"], "stmt", 1, 1, stmt="return"))
+    L.append(Line(["}"], "func_close", 0, 1))
+    L.append(Line([""], "blank"))
+    L.append(Line(["static int\t", ft, "(int ", ta, ")"], "func_sig", 0, 2))
+    L.append(Line(["{"], "func_open", 0, 2))
+    L.append(Line(["\treturn (", gt, "[", ta, "] + ", gn, "[0][0]);"], "stmt", 1, 2, stmt="return"))
+    L.append(Line(["}"], "func_close", 0, 2))
+    L.append(Line([""], "blank"))
+    L.append(Line(["int\t", fm, "(void)"], "func_sig", 0, 3))
+    L.append(Line(["{"], "func_open", 0, 3))
+    L.append(Line(["\tif (", gh, ")"], "ctrl", 1, 3, kw="if"))
+    L.append(Line(["\t\treturn (", gh, "(1));"], "stmt", 2, 3, stmt="return"))
+    L.append(Line(["\treturn (", fa, "(NULL, ", ft, "(0), 2));"], "stmt", 1, 3, stmt="return"))
+    L.append(Line(["}"], "func_close", 0, 3))
+    out.append(Prog(name, L, dict(nfuncs=4, maximal="function-pointer / array globals, prototypes, function-pointer parameter and local, four functions")))
     return out
